@@ -1,0 +1,15 @@
+//go:build verif
+
+package epochkghandler
+
+import (
+	"context"
+
+	"github.com/shutter-network/rolling-shutter/rolling-shutter/medley/broker"
+)
+
+// VerifHandleEvent runs the body of the trigger loop for one decryption trigger (verification
+// hook, build tag "verif"; adds no behaviour).
+func (ksh *KeyShareHandler) VerifHandleEvent(ctx context.Context, ev *broker.Event[*DecryptionTrigger]) {
+	ksh.handleEvent(ctx, ev)
+}
